@@ -930,7 +930,8 @@ def _drop_dead_helpers(tree, modname, known):
             if q in known or f.name.startswith("__"):
                 continue
             inside = {id(x) for x in ast.walk(f)}
-            refs = 0
+            from . import normalize as _nz
+            refs = 1 if f.name in getattr(_nz, "EXTERNAL_REFS", ()) else 0
             for x in ast.walk(tree):
                 if id(x) in inside:
                     continue
